@@ -256,7 +256,8 @@ fn run_c15(tier: &str) -> i32 {
     rep.add(sweep("codegen-corpus", corpus::CASES.len() as u64, &cfg, |i, s| {
         s.goal("interface-exercised");
         if s.wants_sample() {
-            s.sample(|| serde_json::json!({"interface": corpus::IDLS[i as usize]}));
+            // (the cases of the multi-interface module come after the per-interface ones and have no text of their own here)
+            s.sample(|| serde_json::json!({"interface": corpus::IDLS.get(i as usize).copied().unwrap_or("(case of the multi-interface module)")}));
         }
         (corpus::CASES[i as usize])(s)
     }));
